@@ -346,7 +346,7 @@ def plan(tier):
 
 
 def run(shard, seed, ctx):
-    hyp.drive(ctx, "tree", cases(), body, shard["n"], seed, shrink_budget=120)
+    hyp.drive(ctx, "tree", cases(), body, shard["n"], seed, shrink_budget=40)
 
 
 def replay(kind, case):
